@@ -407,6 +407,11 @@ int main(void) {
     chunkqueue_init(&r->reqbody_queue);
     chunkqueue_init(&r->write_queue);
     capture = buffer_init();
+    /* (a never-used r->pathinfo has ptr NULL; http_cgi_headers() then hands NULL/0 to memcpy()
+     *  via buffer_copy_path_len2() with break-scriptfilename-for-php: benign, outside C09) */
+    buffer_string_prepare_copy(&r->pathinfo, 63);
+    buffer_clear(&r->pathinfo);
+    setvbuf(stdout, NULL, _IOLBF, 1 << 16);   /* a sanitizer abort must not lose finished lines */
 
     pl_fcgi.name = "fastcgi"; pl_scgi.name = "scgi"; pl_proxy.name = "proxy";
     gwp_fcgi.id = 0; gwp_fcgi.self = &pl_fcgi;
